@@ -9,6 +9,7 @@ import (
 	"strings"
 	"time"
 
+	"github.com/zeromicro/go-zero/rest"
 	"github.com/zeromicro/go-zero/rest/handler"
 )
 
@@ -71,8 +72,9 @@ func (rc *recorder) seal() {
 }
 
 type route struct {
-	d time.Duration
-	h http.Handler
+	d    time.Duration
+	path string
+	h    http.Handler
 }
 
 type restCall struct {
@@ -102,10 +104,19 @@ func (w *world) setupRest(n int) (func(int), func()) {
 		q := byID[req.Header.Get("X-Call")]
 		q.wk.run(req.Context(), rw)
 	})
-	routes := make([]*route, t.Range(1, 2))
-	for i := range routes {
-		d := drawTimeout(t)
-		routes[i] = &route{d: d, h: handler.TimeoutHandler(d)(dispatch)}
+	var routes []*route
+	engineMode := t.Chance(1, 3)
+	if engineMode {
+		routes = w.engineRoutes(dispatch)
+		if routes == nil {
+			return func(int) {}, func() {}
+		}
+	} else {
+		routes = make([]*route, t.Range(1, 2))
+		for i := range routes {
+			d := drawTimeout(t)
+			routes[i] = &route{d: d, path: "/call", h: handler.TimeoutHandler(d)(dispatch)}
+		}
 	}
 	var sample []string
 	for i := 0; i < n; i++ {
@@ -139,13 +150,13 @@ func (w *world) setupRest(n int) (func(int), func()) {
 			r.Logf("%s", s)
 		}
 	}
-	r.Sample(map[string]any{"component": "rest/handler.TimeoutHandler", "routes": len(routes), "calls": sample})
+	r.Sample(map[string]any{"component": "rest/handler.TimeoutHandler", "engine_wiring": engineMode, "routes": len(routes), "calls": sample})
 	run := func(i int) {
 		q := calls[i]
 		if q.pre > 0 {
 			r.Sleep(q.pre)
 		}
-		req := httptest.NewRequest(http.MethodGet, "/call", nil)
+		req := httptest.NewRequest(http.MethodGet, q.rt.path, nil)
 		req.Header.Set("X-Call", strconv.Itoa(q.id))
 		switch {
 		case q.exempt == 1:
@@ -335,4 +346,67 @@ func (w *world) checkRest(q *restCall) {
 	if len(k.acts) > 0 {
 		r.Probe("timeout-result-discarded-partial-writes")
 	}
+}
+
+// engineRoutes builds the routes through the REST engine's own wiring
+// (newEngine, AddRoutes with/without rest.WithTimeout, bindRoutes onto a pat
+// router): the timeout a route runs under is what the engine selects - the
+// group's own timeout if it has one, else the server-wide RestConf.Timeout -
+// whatever other groups are registered on the same server, before or after it.
+// Only the timeout middleware (plus max-bytes and gunzip, which do not touch
+// a body-less GET) is switched on, so the expected results are those of the
+// directly constructed wrapper.
+func (w *world) engineRoutes(dispatch http.Handler) []*route {
+	t, r := w.r.Tape, w.r
+	globalMs := int64(t.Range(1, 10_000))
+	if t.Chance(1, 2) {
+		globalMs = int64(timeoutTable[t.Intn(len(timeoutTable))] / time.Millisecond)
+	}
+	global := time.Duration(globalMs) * time.Millisecond
+	var conf rest.RestConf
+	conf.Name = fmt.Sprintf("c04-%d", w.tick())
+	conf.Host, conf.Port = "localhost", 0
+	conf.Timeout = globalMs
+	conf.MaxBytes = 1 << 20
+	conf.MaxConns = 10000
+	conf.Middlewares.Timeout = true
+	conf.Middlewares.MaxBytes = t.Bool()
+	conf.Middlewares.Gunzip = t.Bool()
+	ngroups := t.Range(1, 4)
+	groups := make([]rest.VerifRouteGroup, ngroups)
+	routes := make([]*route, ngroups)
+	var desc []string
+	for i := range groups {
+		path := fmt.Sprintf("/g%d/call", i)
+		groups[i].Routes = []rest.Route{{Method: http.MethodGet, Path: path, Handler: dispatch.ServeHTTP}}
+		d := global
+		if t.Chance(1, 2) {
+			d = drawTimeout(t) // shorter or longer than the server-wide one
+			groups[i].Opts = append(groups[i].Opts, rest.WithTimeout(d))
+			if d > global {
+				r.Probe("engine-route-timeout-above-global")
+			}
+			desc = append(desc, fmt.Sprintf("%s:WithTimeout(%v)", path, d))
+		} else {
+			r.Probe("engine-route-inherits-global")
+			desc = append(desc, fmt.Sprintf("%s:global(%v)", path, d))
+		}
+		if t.Chance(1, 4) {
+			groups[i].Opts = append(groups[i].Opts, rest.WithMaxBytes(1<<10))
+		}
+		routes[i] = &route{d: d, path: path}
+	}
+	h, err := rest.VerifNewRouterHandler(conf, groups)
+	if err != nil {
+		r.Fail("rest/engine-bind-error", "bindRoutes: %v", err)
+		return nil
+	}
+	for _, rt := range routes {
+		rt.h = h
+	}
+	if r.Tracing() {
+		r.Logf("engine wiring: global %v; %s", global, strings.Join(desc, "; "))
+	}
+	r.Probe("rest-engine-wiring")
+	return routes
 }
